@@ -2,6 +2,9 @@
 
 PROPS = {}
 
+# theorems every store-level property rests on: the refinement of the physical model to a map and the record-list core
+CORE_RL = ["Sth.C01_store_refines_map", "Sth.C08_inv", "Sth.C08_lookup", "Sth.C08_absent", "Sth.C08_codec"]
+
 PROPS["C08"] = dict(
     modules=["Sth.Props.C08"],
     theorems=["Sth.C08_inv", "Sth.C08_lookup", "Sth.C08_absent", "Sth.C08_frame_update",
@@ -32,8 +35,9 @@ PROPS["C14"] = dict(
 SEQ_NT_C01 = ["prev-is-prefix", "primary-rollover", "index-rollover", "primary-file-rolled", "put-update", "remove-present"]
 
 PROPS["C01"] = dict(
-    modules=["Sth.Props.C08"],
-    theorems=["Sth.C08_inv", "Sth.C08_lookup", "Sth.C08_absent", "Sth.C08_codec"],
+    modules=["Sth.Props.C01", "Sth.Props.C08"],
+    theorems=["Sth.C01_store_refines_map", "Sth.C01_keys_exact", "Sth.C01_init", "Sth.C01_trailing_bytes_rejected",
+              "Sth.C01_d30_input_now_agrees", "Sth.C08_inv", "Sth.C08_lookup", "Sth.C08_absent", "Sth.C08_codec"],
     runs=[dict(engine="seq", quick=400, thorough=30000, extra=["-profile", "c01"], nontrivial=SEQ_NT_C01)],
     rule="traces of Put/Get/Has/GetSize/Remove/Flush/iteration on the real store (multihash and CID primaries, index bits 8..24, "
          "index/primary file limits from 1 byte to the default, both immutability modes, keys clustered in <= 3 buckets with long "
@@ -46,8 +50,8 @@ PROPS["C01"] = dict(
 )
 
 PROPS["C04"] = dict(
-    modules=["Sth.Props.C08"],
-    theorems=["Sth.C08_inv", "Sth.C08_lookup", "Sth.C08_absent", "Sth.C08_codec"],
+    modules=["Sth.Props.C01", "Sth.Props.C08"],
+    theorems=list(CORE_RL),
     runs=[dict(engine="seq", quick=400, thorough=20000, extra=["-profile", "c04"],
                nontrivial=["igc-acted", "pgc-acted", "pgc-relocated", "igc-unlinked", "pgc-unlinked"])],
     requires_ops=["igc", "pgc"],
@@ -59,10 +63,9 @@ PROPS["C04"] = dict(
     assumptions=["sequential histories (concurrent collectors are C06)", "GC cycles are invoked synchronously; the timers that start them are not modelled"],
 )
 
-CORE_RL = ["Sth.C08_inv", "Sth.C08_lookup", "Sth.C08_absent", "Sth.C08_codec"]
 
 PROPS["C02"] = dict(
-    modules=["Sth.Props.C08"],
+    modules=["Sth.Props.C01", "Sth.Props.C08"],
     theorems=list(CORE_RL),
     runs=[dict(engine="seq", quick=400, thorough=10000, extra=["-profile", "c02"], nontrivial=["reopen", "reopen-rescan", "reopen-badsnap", "paths"])],
     requires_ops=["close", "open", "paths", "rmsnap", "badsnap"],
@@ -76,7 +79,7 @@ PROPS["C02"] = dict(
 )
 
 PROPS["C15"] = dict(
-    modules=["Sth.Props.C08"],
+    modules=["Sth.Props.C01", "Sth.Props.C08"],
     theorems=list(CORE_RL),
     runs=[dict(engine="bs", quick=400, thorough=20000, nontrivial=["duplicate-put", "hash-mismatch-rejected", "hash-mismatch-unchecked", "cancelled", "delete", "empty-block"])],
     rule="sequences of Put/PutMany/Get/Has/GetSize/DeleteBlock/HashOnRead on the real HashedBlockstore over blocks of 0..4 KiB, "
@@ -89,7 +92,7 @@ PROPS["C15"] = dict(
 )
 
 PROPS["C03"] = dict(
-    modules=["Sth.Props.C08"],
+    modules=["Sth.Props.C01", "Sth.Props.C08"],
     theorems=list(CORE_RL),
     runs=[dict(engine="crash", quick=48, thorough=2000, nontrivial=["torn", "at:index", "at:primary", "at:freelist", "at:store"])],
     shrink_budget=0,   # the workload is the context of the crash oracle (baseline, acknowledged since): it is kept whole
@@ -107,7 +110,7 @@ PROPS["C03"] = dict(
 )
 
 PROPS["C05"] = dict(
-    modules=["Sth.Props.C08"],
+    modules=["Sth.Props.C01", "Sth.Props.C08"],
     theorems=list(CORE_RL),
     runs=[dict(engine="sched", quick=150, thorough=20000, extra=["-profile", "c05"], nontrivial=["overlapping-calls"])],
     shrink_budget=0,
@@ -122,7 +125,7 @@ PROPS["C05"] = dict(
 )
 
 PROPS["C06"] = dict(
-    modules=["Sth.Props.C08"],
+    modules=["Sth.Props.C01", "Sth.Props.C08"],
     theorems=list(CORE_RL),
     runs=[dict(engine="sched", quick=150, thorough=20000, extra=["-profile", "c06"], nontrivial=["gc-overlaps-call"])],
     shrink_budget=0,
@@ -147,7 +150,7 @@ PROPS["C12"] = dict(
 )
 
 PROPS["C13"] = dict(
-    modules=["Sth.Props.C08"],
+    modules=["Sth.Props.C01", "Sth.Props.C08"],
     theorems=list(CORE_RL),
     runs=[dict(engine="seq", quick=300, thorough=10000, extra=["-profile", "c13"], nontrivial=["freelist-nonempty", "pgc-relocated"])],
     rule="C04-style traces (small files, overwrites, removals, flushes, reopen, GC cycles with relocation and deadlines); after every "
@@ -161,7 +164,7 @@ PROPS["C13"] = dict(
 )
 
 PROPS["C11"] = dict(
-    modules=["Sth.Props.C08"],
+    modules=["Sth.Props.C01", "Sth.Props.C08"],
     theorems=list(CORE_RL),
     runs=[dict(engine="seq", quick=200, thorough=10000, extra=["-profile", "c11"], nontrivial=["c11-dead-primary-files", "c11-unreferenced-index-files"])],
     rule="fixed-shape histories: fill several small files, remove or overwrite all (or all but 1-2) keys, flush, roll the files out of "
@@ -172,4 +175,33 @@ PROPS["C11"] = dict(
          "Non-trivial = distinct history with at least one dead primary file or unreferenced index file at the mark.",
     assumptions=["cycles are invoked synchronously (the timers that start them are not modelled)",
                  "no-growth is measured at flushed states: the repaired collector flushes the primary before applying the freelist"],
+)
+
+PROPS["C07"] = dict(
+    modules=["Sth.Props.C01", "Sth.Props.C08"],
+    theorems=list(CORE_RL),
+    runs=[dict(engine="seq", quick=250, thorough=10000, extra=["-profile", "c07"], nontrivial=["fsck-2-buckets"])],
+    rule="C04-style traces (flushes, reopen, both GCs, small files); after every flush, GC cycle and reopen the FULL bytes of every file "
+         "and the live bucket table of the real store are handed to the Lean fsck (Sth/Model/Fsck.lean), which checks every clause of the "
+         "property: bucket -> complete live record list tagged with that bucket in an existing file at or after the header's first file; "
+         "entry -> complete live primary record of matching size whose key has the bucket bits and the stored prefix; sorted, prefix-free, "
+         "distinct locations; no freelist/.gc entry names a live entry's location. The model's own files are checked too. Crash-recovered "
+         "states are covered by C03's engine. Non-trivial = distinct trace whose fsck runs saw at least two non-empty buckets.",
+    assumptions=["quiescent states of sequential histories; states after crash recovery are examined under C03",
+                 "known finding D11 (shared with C03): after a primary GC cycle that ran with unflushed index updates the on-disk index may name a deleted record until the next flush"],
+)
+
+PROPS["C17"] = dict(
+    modules=["Sth.Props.C01", "Sth.Props.C08"],
+    theorems=list(CORE_RL),
+    runs=[dict(engine="res", quick=96, thorough=5000, nontrivial=["closed-while-cycle-parked", "failopen-idxsize", "failopen-prisize", "failopen-bits+size", "failopen-badjson", "failopen-badprijson", "cycles"])],
+    shrink_budget=0,
+    rule="real stores with the real background flusher (4 ms) and both collectors (15 ms) over 64/128-byte files: random put/remove "
+         "workload, then Close - in half of the runs while a collector cycle or flush is parked by a hook handler at one of 31 named "
+         "points (Close must not return until the cycle is released); after Close: store goroutines in the goroutine dump, descriptors "
+         "into the directory from /proc/self/fd, directory stamps (name,size,mtime) re-read 70 ms later, second Close, reopen and "
+         "read-back of every acknowledged key. Failing opens (index/primary file-size mismatch, bits+size, corrupt index/primary header, "
+         "illegal bit size) must leave no goroutine or descriptor and the contents intact; 8-18 open/close repetitions must not "
+         "accumulate. Non-trivial = distinct run that closed during a parked cycle, a failed open, or a repetition run.",
+    assumptions=["timers, finalizers and runtime-internal goroutines are not examined", "writers parked in flushTick at Close are callers, outside the statement"],
 )
